@@ -243,7 +243,46 @@ def oracle_domain_updated_in_place(rng):
     return None
 
 
+def oracle_declared_domains(rng):
+    """domains built from user constraints that leave a coordinate unmentioned (SigDomain and PolyDomain, with and without auxiliary columns): the
+    certificate of a solved primal SAGE constraint over X holds at the points of the DECLARED set (taken from the constraints as written)"""
+    import sageopt.coniclifts as cl
+    from sageopt.symbolic.polynomials import PolyDomain
+    alpha = np.array([[1.0, 0.0, 0.0], [0.0, 1.0, 0.0], [0.0, 0.0, 0.0], [0.0, 1.0, 1.0], [0.0, -1.0, -1.0]])
+    doms = list(sagecorr.declared_domains(rng))
+
+    def polydisc():
+        y = cl.Variable(shape=(3,), name='decl_poly_y')
+        return PolyDomain(3, logspace_cons=[cl.vector2norm(y[:2]) <= 1])
+    doms.append(('PolyDomain {|(log|x0|, log|x1|)| <= 1} in R^3 (third coordinate free, one auxiliary column)', polydisc, doms[2][2]))
+    with warnings.catch_warnings():
+        warnings.simplefilter('ignore')
+        for desc, build, pts in doms:
+            X = build()
+            gam = cl.Variable(shape=(1,), name='decl_gamma')
+            cexpr = cl.Expression([1.0, 1.0, -gam[0], 0.5, 0.5])
+            con = cl.PrimalSageCone(cexpr, alpha, X, 'decl_primal')
+            st, val = cl.Problem(cl.MAX, gam[0], [con]).solve(verbose=False)
+            if st != 'solved' or not math.isfinite(val):
+                continue
+            c = np.asarray(con.c.value, dtype=float)
+            vecs = [('constrained coefficients', c)] + [('AGE vector %d' % i, np.asarray(av.value, dtype=float)) for i, av in con.age_vectors.items()]
+            for x in pts:
+                ex = np.exp(alpha @ x)
+                for nm, a in vecs:
+                    fv = float(a @ ex)
+                    if fv < -1e-5 * (1 + float(np.abs(a) @ ex)):
+                        return ('X = %s: the solved primal SAGE constraint reports gamma = %g; the signomial with the %s %s is %g at the point %s of X'
+                                % (desc, val, nm, a.tolist(), fv, x.tolist()))
+    return None
+
+
 def run(ctx):
+    why = oracle_declared_domains(ctx.rng)
+    ctx.evaluations += 4
+    ctx.suites['declared_domains'] = {'cases': 4, 'failure': why}
+    if why:
+        ctx.problem('oracle', 'property fails on the implementation: ' + why, inputs={'suite': 'declared_domains'}, failing_input_found=True)
     why = oracle_domain_updated_in_place(ctx.rng)
     ctx.evaluations += 1
     ctx.suites['domain_updated_in_place'] = {'cases': 2, 'failure': why}
